@@ -31,7 +31,10 @@ type specCtx struct {
 }
 
 func (u *Unit) parseSpec(c Clause) ast.Expr {
-	txt := rewriteImplies(u.Prog.Contracts.Expand(c.Text))
+	txt := c.Text
+	if !c.Expanded {
+		txt = rewriteImplies(u.Prog.Contracts.Expand(c.Text))
+	}
 	e, err := parser.ParseExpr(txt)
 	if err != nil {
 		panic(unsupported{fmt.Sprintf("%s:%d: cannot parse spec expression %q: %v", c.File, c.Line, c.Text, err)})
@@ -470,7 +473,19 @@ func (u *Unit) specCall(x *ast.CallExpr, env *Env, sc *specCtx) Value {
 			return Value{Forall([]Term{bv}, Imp(rng, body.Term)), boolT}
 		}
 		return Value{Exists([]Term{bv}, And(rng, body.Term)), boolT}
-	case "lamr", "lami":
+	case "reveal":
+		// reveal(A, x): true; mentions the token that lets the solver unfold the opaque definition of A at x
+		a := u.sv(x.Args[0], env, sc)
+		v := u.sv(x.Args[1], env, sc)
+		tok, ok := u.lamTok[a.S]
+		if !ok {
+			unsup("reveal of a value that is not an opaque lambda")
+		}
+		if v.Sort != SVal {
+			v = u.specBox(v, env)
+		}
+		return Value{App(tok, SBool, v.Term), boolT}
+	case "lamr", "lami", "lamv", "lamvo":
 		// lamr(r, body): the array A with A[r] == body for every r (Ref-indexed); lami: Int-indexed
 		name := x.Args[0].(*ast.Ident).Name
 		ks := SRef
@@ -478,12 +493,25 @@ func (u *Unit) specCall(x *ast.CallExpr, env *Env, sc *specCtx) Value {
 		if fname == "lami" {
 			ks, kty = SInt, intT
 		}
+		if fname == "lamv" || fname == "lamvo" {
+			ks, kty = SVal, types.NewInterfaceType(nil, nil)
+		}
 		bv := u.D.Bound(name, ks)
 		body := u.sv(x.Args[1], env, u.withBound(sc, name, Value{bv, kty}))
 		arr := u.D.Fresh("lam", ArrS(ks, body.Sort))
 		ax := Forall([]Term{bv}, Same(Select(arr, bv), body.Term), []Term{Select(arr, bv)})
-		if strings.Contains(strings.ReplaceAll(ax.S, bv.S, ""), "?") {
-			unsup("lamr/lami under a quantifier")
+		if fname == "lamvo" {
+			// opaque: the definition is only instantiated where reveal(arr, x) is mentioned
+			u.D.n++
+			tok := fmt.Sprintf("reveal!%d", u.D.n)
+			u.D.Fun(tok, SBool, ks)
+			u.lamTok[arr.S] = tok
+			ax = Forall([]Term{bv}, And(App(tok, SBool, bv), Same(Select(arr, bv), body.Term)), []Term{App(tok, SBool, bv)})
+		}
+		for _, ov := range sc.bound {
+			if strings.Contains(ov.S, "?") && strings.Contains(ax.S, ov.S) {
+				unsup("lamr/lami/lamv under a quantifier")
+			}
 		}
 		env.assume(ax)
 		return Value{arr, nil}
@@ -704,4 +732,70 @@ func (u *Unit) seqEq(envA *Env, a Value, envB *Env, b Value) Term {
 	eb := u.sliceGet(envB, b.Term, es, i)
 	return And(Same(sLen(a.Term), sLen(b.Term)),
 		Forall([]Term{i}, Imp(And(le(IntLit(0), i), lt(i, sLen(a.Term))), Same(ea, eb)), []Term{ea}, []Term{eb}))
+}
+
+// split a clause into independently provable conjuncts: top-level && and && directly under forall(i, lo, hi, ...)
+func (u *Unit) splitClause(c Clause) []Clause {
+	txt := rewriteImplies(u.Prog.Contracts.Expand(c.Text))
+	e, err := parser.ParseExpr(txt)
+	if err != nil {
+		return []Clause{c}
+	}
+	parts := splitConj(e)
+	if len(parts) <= 1 {
+		return []Clause{c}
+	}
+	var out []Clause
+	for i, p := range parts {
+		nc := c
+		nc.Text = strings.Join(strings.Fields(nodeString(token.NewFileSet(), p)), " ")
+		nc.Label = fmt.Sprintf("%s#%d", c.Label, i)
+		nc.Expanded = true
+		out = append(out, nc)
+	}
+	return out
+}
+
+func splitConj(e ast.Expr) []ast.Expr {
+	switch x := e.(type) {
+	case *ast.ParenExpr:
+		return splitConj(x.X)
+	case *ast.BinaryExpr:
+		if x.Op == token.LAND {
+			return append(splitConj(x.X), splitConj(x.Y)...)
+		}
+	case *ast.CallExpr:
+		id, ok := x.Fun.(*ast.Ident)
+		if !ok {
+			break
+		}
+		switch {
+		case (id.Name == "forall" && len(x.Args) == 4) || (id.Name == "forall2" && len(x.Args) == 7) || ((id.Name == "forallv" || id.Name == "forallr") && len(x.Args) == 2):
+			last := len(x.Args) - 1
+			inner := splitConj(x.Args[last])
+			if len(inner) <= 1 {
+				break
+			}
+			var out []ast.Expr
+			for _, in := range inner {
+				cp := *x
+				cp.Args = append(append([]ast.Expr(nil), x.Args[:last]...), in)
+				out = append(out, &cp)
+			}
+			return out
+		case id.Name == "imp" && len(x.Args) == 2:
+			inner := splitConj(x.Args[1])
+			if len(inner) <= 1 {
+				break
+			}
+			var out []ast.Expr
+			for _, in := range inner {
+				cp := *x
+				cp.Args = []ast.Expr{x.Args[0], in}
+				out = append(out, &cp)
+			}
+			return out
+		}
+	}
+	return []ast.Expr{e}
 }
